@@ -702,6 +702,18 @@ func checkMain(prop, tier string, seed int64, runsOverride int) int {
 			mp, ms = P, S
 			r1, exact, hits = confirm(prop, c.rec, cl, mp, ms)
 		}
+		wall := false
+		for _, v := range c.rec.Outcome.Violations {
+			if v.Class == cl && strings.Contains(v.Msg, "wall-clock budget of one run exceeded") {
+				wall = true
+			}
+		}
+		if hits == 0 && wall {
+			// the wall-clock part of the run budget depends on the load of the machine; a run that
+			// completes within its step budget when replayed was merely slow
+			report("NOTE: seed=%d run=%d exceeded the wall-clock budget of a run during the search but completes when replayed (machine load); not counted", c.rec.Seed, c.rec.Run)
+			continue
+		}
 		if hits == 0 {
 			report("INFRA: violation %s of seed=%d run=%d was seen by the search but never reproduces from its tape; withheld", cl, c.rec.Seed, c.rec.Run)
 			if exit == 0 {
